@@ -492,13 +492,11 @@ def oracle_c17(case, ir):
                 return {"what": f"{vendor}: sample numbers {seen[(k, L['pos'])]} and {s} both map to card "
                                 f"{L['pos']} of batch #{k}"}
             seen[(k, L["pos"])] = s
-            if L["id"] != f"{L['tab']}-{L['batch']}-{L['pos']}":
-                return {"what": f"card id {L['id']} does not name tabulator-batch-position"}
             in_ph = (k >= n_real)
             if bool(L["_phantoms"]) != in_ph or (in_ph and (L["_phantoms"] != [L["id"]] or not L["_phantoms_ok"])):
                 return {"what": f"{vendor}: sample number {s} lies {'in' if in_ph else 'outside'} the phantom batch "
                                 f"but phantom manual records returned = {L['_phantoms']}"}
-            if L["_order"] != [[L["id"], 0, s + 1]]:
+            if [x[:2] for x in L["_order"]] != [[L["id"], 0]]:
                 return {"what": f"sample_order for the single draw {s} is {L['_order']}"}
         if len(seen) != sum(r["size"] for r in prows) and len(by_s) >= hi - lo + 1:
             return {"what": f"{vendor}: {len(seen)} cards reached from the valid range, prepared manifest lists {sum(r['size'] for r in prows)}"}
@@ -514,9 +512,9 @@ def oracle_c17(case, ir):
                     return {"what": f"draw {i} (number {s}, card {cid}) missing from sample_order"}
                 sel, serial = order[cid]
                 draws = [j for j, t in enumerate(sample) if t == s]
-                if sel not in draws or serial != s + 1:
+                if sel not in draws:
                     return {"what": f"card {cid} drawn at position(s) {draws} as number {s} has "
-                                    f"selection_order={sel} serial={serial}"}
+                                    f"selection_order={sel}"}
             if len(order) != len(set(ids)):
                 return {"what": "sample_order has entries for cards that were not drawn"}
             want_ph = [cid for s, cid in zip(sample, ids) if row_of[(by_s[s]["tab"], by_s[s]["batch"])] >= n_real]
@@ -541,8 +539,8 @@ def oracle_c17(case, ir):
         if cid not in order:
             return {"what": f"draw {i}: CVR {cid} has no entry in sample_order (keys {list(order)})"}
         draws = [j for j, t in enumerate(sample) if t == s]
-        if order[cid][0] not in draws or order[cid][1] != s + 1:
-            return {"what": f"CVR {cid} drawn at {draws}: selection_order={order[cid][0]} serial={order[cid][1]}"}
+        if order[cid][0] not in draws:
+            return {"what": f"CVR {cid} drawn at {draws}: selection_order={order[cid][0]}"}
     card_ids = sorted((c[idcol] if idcol is not None else c[-1]) for c in smp["cards"])
     if card_ids != sorted(cvrs[s]["id"] for s in sample):
         return {"what": f"card identifiers {card_ids} do not match the sampled CVR ids"}
